@@ -5,6 +5,7 @@ import Qryn.Proofs.InternalParams
 import Qryn.Proofs.InternalCompose
 import Qryn.Proofs.InternalEndToEnd
 import Qryn.Read.JsonPathSyntax
+import Qryn.LogQL.PostMetric
 import Qryn.Gen.InternalPlanner
 import Qryn.Gen.InternalParams
 import Qryn.Gen.PlannerGlobals
@@ -130,9 +131,9 @@ theorem batching_invariant_metricPlan (E : Env V) (c : Read.Ctx) (p : Plan V) (h
       rw [batching_invariant_aggregator, hst, ← batching_invariant_aggregator]
     simp only [runPlan, hk, this]
   | unwrap fn =>
-    have : run E.num (aggOps E.num c.maxSeries (Grid.of c.fromNs c.toNs dur) (unwrapAggFn E.num dur fn)) []
+    have : run E.num (aggOps E.num c.maxSeries (Grid.of c.fromNs c.toNs dur) (unwrapAggFn E.num dur (dirFn c.orderAsc fn))) []
           (runByWithout E p.aggBy (runStages E p.stages bs)) =
-        run E.num (aggOps E.num c.maxSeries (Grid.of c.fromNs c.toNs dur) (unwrapAggFn E.num dur fn)) []
+        run E.num (aggOps E.num c.maxSeries (Grid.of c.fromNs c.toNs dur) (unwrapAggFn E.num dur (dirFn c.orderAsc fn))) []
           (runByWithout E p.aggBy (runStages E p.stages [bs.flatten])) := by
       rw [batching_invariant_aggregator, hbw, ← batching_invariant_aggregator]
     simp only [runPlan, hk, this]
@@ -277,6 +278,75 @@ theorem stage_meets_logql_vectorAgg (N : NumOps V) (maxSeries : Nat) (g : Grid) 
     aggregate_value_congr _ g _ _ (fun l hl => vec_value N fn l hl),
     aggregate_key_congr (fun e : Entry V => e.fp) (fun e : Entry V => e.labels) g _ _ hf]
 
+/-- the order in which the ClickHouse part of a split script delivers its rows: ORDER BY timestamp_ns in the direction of the
+    request — ascending when `direction=forward` (`ctx.OrderASC`), descending otherwise (the default) -/
+def TsOrdered (asc : Bool) (l : List (Entry V)) : Prop :=
+  l.Pairwise (fun a b => if asc then a.ts ≤ b.ts else b.ts ≤ a.ts)
+
+theorem getLast_val_map (N : NumOps V) (l : List (Entry V)) (hl : l ≠ []) :
+    ((l.map (·.val)).getLast?).getD N.zero = (l.getLast hl).val := by
+  rw [List.getLast?_map, List.getLast?_eq_some_getLast hl]
+  rfl
+
+/-- **`first_over_time` is the value of an earliest entry of the window, whatever the direction of the request** (after
+    the `fix:`: with the default direction the rows arrive newest first and the function used to return the value of
+    the *latest* entry; ClickHouse computes `argMin(value, timestamp_ns)`). Among entries with the same least timestamp
+    the choice is open on both engines. -/
+theorem first_over_time_is_earliest (N : NumOps V) (d : Int) (asc : Bool) (l : List (Entry V)) (hl : l ≠ [])
+    (hs : TsOrdered asc l) :
+    ∃ e ∈ l, unwrapValue N d (dirFn asc .firstOverTime) l = e.val ∧ ∀ x ∈ l, e.ts ≤ x.ts := by
+  cases asc with
+  | true =>
+    cases l with
+    | nil => exact absurd rfl hl
+    | cons e rest =>
+      refine ⟨e, List.mem_cons_self, rfl, ?_⟩
+      intro x hx
+      rcases List.mem_cons.mp hx with h | h
+      · rw [h]; exact Int.le_refl _
+      · have := (List.pairwise_cons.mp hs).1 x h
+        simpa using this
+  | false =>
+    refine ⟨l.getLast hl, List.getLast_mem hl, ?_, ?_⟩
+    · simp only [dirFn, Bool.false_eq_true, if_false, unwrapValue]
+      exact getLast_val_map N l hl
+    · intro x hx
+      have hsplit := List.dropLast_concat_getLast hl
+      rw [← hsplit] at hx hs
+      rcases List.mem_append.mp hx with h | h
+      · have := (List.pairwise_append.mp hs).2.2 x h (l.getLast hl) (by simp)
+        simpa using this
+      · simp only [List.mem_singleton] at h
+        rw [h]; exact Int.le_refl _
+
+/-- **`last_over_time` is the value of a latest entry of the window** (ClickHouse: `argMax(value, timestamp_ns)`) -/
+theorem last_over_time_is_latest (N : NumOps V) (d : Int) (asc : Bool) (l : List (Entry V)) (hl : l ≠ [])
+    (hs : TsOrdered asc l) :
+    ∃ e ∈ l, unwrapValue N d (dirFn asc .lastOverTime) l = e.val ∧ ∀ x ∈ l, x.ts ≤ e.ts := by
+  cases asc with
+  | false =>
+    cases l with
+    | nil => exact absurd rfl hl
+    | cons e rest =>
+      refine ⟨e, List.mem_cons_self, rfl, ?_⟩
+      intro x hx
+      rcases List.mem_cons.mp hx with h | h
+      · rw [h]; exact Int.le_refl _
+      · have := (List.pairwise_cons.mp hs).1 x h
+        simpa using this
+  | true =>
+    refine ⟨l.getLast hl, List.getLast_mem hl, ?_, ?_⟩
+    · simp only [dirFn, if_true, unwrapValue]
+      exact getLast_val_map N l hl
+    · intro x hx
+      have hsplit := List.dropLast_concat_getLast hl
+      rw [← hsplit] at hx hs
+      rcases List.mem_append.mp hx with h | h
+      · have := (List.pairwise_append.mp hs).2.2 x h (l.getLast hl) (by simp)
+        simpa using this
+      · simp only [List.mem_singleton] at h
+        rw [h]; exact Int.le_refl _
+
 /-- **any sequence of the modelled stages** (line filter, label filter, the four parser forms, label_format,
     line_format, drop, unwrap) is the LogQL definition applied stage by stage — induction over the stage list -/
 theorem stages_meet_logql (E : Env V) (h0 : E.o.isNum [] = false) (ss : List (StageK V))
@@ -336,11 +406,11 @@ theorem metricPlan_meets_logql (E : Env V) (h0 : E.o.isNum [] = false) (c : Read
   -- the range aggregation
   have hrange : (match k with
       | .range fn => run E.num (aggOps E.num c.maxSeries (Grid.of c.fromNs c.toNs dur) (lraFn E.num dur fn)) [] (runStages E p.stages bs)
-      | .unwrap fn => run E.num (aggOps E.num c.maxSeries (Grid.of c.fromNs c.toNs dur) (unwrapAggFn E.num dur fn)) []
+      | .unwrap fn => run E.num (aggOps E.num c.maxSeries (Grid.of c.fromNs c.toNs dur) (unwrapAggFn E.num dur (dirFn c.orderAsc fn))) []
           (runByWithout E p.aggBy (runStages E p.stages bs))) =
       (match k with
       | .range fn => if rangeCounts fn then aggregate (·.labels) (Grid.of c.fromNs c.toNs dur) (rangeValue E.num dur fn) (stages E p.stages bs.flatten) else []
-      | .unwrap fn => if unwrapCounts fn then aggregate (·.labels) (Grid.of c.fromNs c.toNs dur) (unwrapValue E.num dur fn)
+      | .unwrap fn => if unwrapCounts fn then aggregate (·.labels) (Grid.of c.fromNs c.toNs dur) (unwrapValue E.num dur (dirFn c.orderAsc fn))
           (optByWithout E p.aggBy (stages E p.stages bs.flatten)) else []) := by
     cases k with
     | range fn =>
@@ -369,7 +439,9 @@ theorem metricPlan_meets_logql (E : Env V) (h0 : E.o.isNum [] = false) (c : Read
           exact hsp x hx
       by_cases hfn : unwrapCounts fn = true
       · simp only [hfn, if_true]
-        rw [stage_meets_logql_unwrapAgg E.num c.maxSeries _ dur fn hfn _ hprop' (by rw [hbw]; exact hcap) (by rw [hbw]; exact hf), hbw]
+        have hfn' : unwrapCounts (dirFn c.orderAsc fn) = true := by
+          cases fn <;> cases c.orderAsc <;> simp [dirFn, unwrapCounts] at hfn ⊢
+        rw [stage_meets_logql_unwrapAgg E.num c.maxSeries _ dur (dirFn c.orderAsc fn) hfn' _ hprop' (by rw [hbw]; exact hcap) (by rw [hbw]; exact hf), hbw]
       · have hfo : fn = .other := by cases fn <;> simp [unwrapCounts] at hfn ⊢
         subst hfo
         simp only [unwrapCounts, Bool.false_eq_true, if_false]
@@ -401,7 +473,7 @@ theorem metricPlan_meets_logql (E : Env V) (h0 : E.o.isNum [] = false) (c : Read
     rw [hbw] at hvec
     have hrr : rangeResult E c p bs.flatten = optCompare E.num p.aggCmp (match k with
       | .range fn => if rangeCounts fn then aggregate (·.labels) (Grid.of c.fromNs c.toNs dur) (rangeValue E.num dur fn) (stages E p.stages bs.flatten) else []
-      | .unwrap fn => if unwrapCounts fn then aggregate (·.labels) (Grid.of c.fromNs c.toNs dur) (unwrapValue E.num dur fn)
+      | .unwrap fn => if unwrapCounts fn then aggregate (·.labels) (Grid.of c.fromNs c.toNs dur) (unwrapValue E.num dur (dirFn c.orderAsc fn))
           (optByWithout E p.aggBy (stages E p.stages bs.flatten)) else []) := by
       simp only [rangeResult, evalPlan, hk]
       cases k <;> rfl
@@ -922,6 +994,43 @@ theorem split_end_to_end_metric (o : Oracles) (E : Env V) (h0 : E.o.isNum [] = f
     exact metricOk_of_upstream E rc p _ hagg hnr hby hvec hcap hcapVec (upstream_fpFaithful E.num o c hn d hd ms hm fs)
   rw [metricPlan_meets_logql E h0 rc p hagg bs (by rw [hbs]; exact chRows_proper E.num o c d ms _) hok, hbs]
 
+/-! ### the recorded finding: a step above the range -/
+/-- `clickhouse_planner.StepFixPlanner` on the matrix of the range / vector aggregation (rows ordered by series, then time):
+    when the step is greater than the range, one row per (series, step bucket `intDiv(ts, step) * step`) with the value of
+    the earliest row of the bucket (`argMin(value, timestamp_ns)`), re-timed to the start of the bucket. The in-process
+    engine has no such stage (`internal_planner.MatrixStepPlanner` is never planned). -/
+def stepFixM (step d : Int) (es : List MEntry) : List MEntry :=
+  if step ≤ d then es
+  else es.foldl (fun acc e =>
+    match acc.getLast? with
+    | some l => if l.fp = e.fp ∧ l.ts = Int.tdiv e.ts step * step then acc
+                else acc ++ [{ e with ts := Int.tdiv e.ts step * step }]
+    | none => [{ e with ts := Int.tdiv e.ts step * step }]) []
+
+/-- the statement the property makes about the response of a metric query: after the matrix post-processors
+    (`ZeroEaterPlanner`, `FixPeriodPlanner`) it does not matter whether the matrix went through ClickHouse's step
+    re-bucketing (ClickHouse ran the whole query) or not (the aggregation ran in process) -/
+def step_independent_of_engine_full : Prop :=
+  ∀ (fromNs toNs step d : Int) (es : List MEntry),
+    postProcess fromNs toNs step d (stepFixM step d es) = postProcess fromNs toNs step d es
+
+/-- it holds whenever the step does not exceed the range (`StepFixPlanner` returns its input) -/
+theorem step_independent_of_engine_partial (fromNs toNs step d : Int) (hs : step ≤ d) (es : List MEntry) :
+    postProcess fromNs toNs step d (stepFixM step d es) = postProcess fromNs toNs step d es := by
+  simp [stepFixM, hs]
+
+/-- **step_independent_of_engine_counterexample** (kernel-checked): range 2, step 4, window [0, 8), one series with the
+    values 5 at 0 and 7 at 2. ClickHouse alone: the step bucket 0 keeps its earliest value — response `5 @ 0`. In process:
+    both range buckets reach `FixPeriodPlanner`, the later one overwrites — response `7 @ 0, 7 @ 4`. -/
+theorem step_independent_of_engine_counterexample : ¬ step_independent_of_engine_full := by
+  intro h
+  have := h 0 8 4 2 [⟨1, 0, 0, 5⟩, ⟨1, 0, 2, 7⟩]
+  revert this
+  decide
+
+example : postProcess 0 8 4 2 (stepFixM 4 2 [⟨1, 0, 0, 5⟩, ⟨1, 0, 2, 7⟩]) = [⟨1, 0, 0, 5⟩] ∧
+    postProcess 0 8 4 2 [⟨1, 0, 0, 5⟩, ⟨1, 0, 2, 7⟩] = [⟨1, 0, 0, 7⟩, ⟨1, 0, 4, 7⟩] := by decide
+
 /-! ## 4. series identity -/
 
 /-- **distinct_sets_distinct_series.** The texts handed to CityHash for the labels of a set determine the set:
@@ -1098,10 +1207,10 @@ def exE1 : Entry Int := ⟨10, 7, [([120], [121])], [1], 0, none⟩
 def exE2 : Entry Int := ⟨20, 7, [([120], [121])], [2], 0, none⟩
 def exInput : List (Entry Int) := [exE1, exE2]
 
-example : MetricOk exEnv ⟨0, 120, 0, 3000, 2000⟩ (exPlan (some (.sum, none, none))) exInput := by
+example : MetricOk exEnv ⟨0, 120, 0, 3000, 2000, true⟩ (exPlan (some (.sum, none, none))) exInput := by
   refine ⟨by decide +kernel, ?_, by decide +kernel, ?_⟩ <;> unfold FpFaithful <;> decide +kernel
 
-example : ((runPlan exEnv ⟨0, 120, 0, 3000, 2000⟩ (exPlan none) [[exE1], [], [exE2]]).flatten.map
+example : ((runPlan exEnv ⟨0, 120, 0, 3000, 2000, true⟩ (exPlan none) [[exE1], [], [exE2]]).flatten.map
     (fun e => (e.labels.get [112], e.val))) = [([50], 1), ([49], 1)] := by decide +kernel
 
 /-- `JsonPathParamToTypedArray` as modelled (`Read.parsePath`): `x.z[0]`, `["k 1"]`, `a b` (the dot is optional), and
